@@ -211,7 +211,13 @@ RECIPES["C03"] = {"units": _STEP_UNITS, "jobs": [step_job("step", "CHECK_C03", e
 RECIPES["C05"] = {"units": _STEP_UNITS, "jobs": [step_job("step", "CHECK_C05", events=_EV_REPLY + ["EV_H", "EV_U", "EV_P"])]}
 RECIPES["C06"] = {"units": _STEP_UNITS, "jobs": [step_job("step", "CHECK_C06", events=_EV_DATA)]}
 RECIPES["C07"] = {"units": _STEP_UNITS, "jobs": [step_job("step", "CHECK_C07")]}
-RECIPES["C10"] = {"units": _STEP_UNITS, "jobs": [step_job("step", "CHECK_C10")]}
+RECIPES["C10"] = {"units": _STEP_UNITS, "jobs": [
+    step_job("step", "CHECK_C10"),
+    {"name": "teardown", "src": ["C10_teardown.c"] + IAUTH, "defs": {"all": {"NSVC": 2}},
+     "splits": {"quick": [{"NREQ": 1}, {"NREQ": 2}], "thorough": [{"NREQ": 1}, {"NREQ": 2}]},
+     "unwind": 800, "unwindset": STEP_UNWINDSET + ["iauth_read.0:3"], "fp_restrict": FP_IAUTH,
+     "flags": ["--sat-solver", "cadical", "--memory-leak-check"], "timeout": 900},
+]}
 
 RECIPES["C04"] = {
     "units": ["modules/iauth_core.c", "modules/iauth_xquery.c", "src/set.c"],
@@ -320,6 +326,7 @@ def _listings(m, thorough):
 
 
 RECIPES["C20"] = {
+    "claimed": False, "na_reason": "harness exists (harness/C20_graph.c) but its symbolic execution does not finish inside the budget yet",
     "units": ["src/module.c", "src/set.c", "src/common.c"],
     "jobs": [
         {"name": "graph", "src": ["C20_graph.c", "tu/module_tu.c", "repo:src/set.c", "repo:src/common.c", "repo:src/bitset.c", "env/core_env.c", "env/libc_models.c"],
@@ -334,3 +341,15 @@ RECIPES["C20"] = {
 
 # Properties without a claimed check, with the reason (kept current by hand).
 NOT_APPLICABLE = {}
+
+RECIPES["C11"] = {
+    "units": ["modules/iauth_class.c", "modules/iauth_xquery.c", "modules/iauth_misc.c", "modules/iauth_core.c", "src/common.c"],
+    "jobs": [
+        {"name": "decide", "src": ["C11_decide.c"] + IAUTH,
+         "defs": {"all": {"VP_UNINTERPRETED_FNMATCH": None}},
+         "splits": {"quick": [{"NRULES": 1}, {"NRULES": 2}], "thorough": [{"NRULES": 1}, {"NRULES": 2}, {"NRULES": 3}]},
+         "unwind": 140, "unwindset": ["set_splay.0:3", "irc_check_mask.0:9", "strcmp.0:16", "strncmp.0:16", "strlen.0:16", "strchr.0:8",
+                                      "strcasecmp.0:4", "collect.0:8", "collect.1:8", "memcpy.0:70"],
+         "fp_restrict": FP_IAUTH, "flags": ["--sat-solver", "cadical"], "timeout": 900},
+    ],
+}
